@@ -367,9 +367,13 @@ builtin_exec(spif_charptr_t param)
         } else {
             libast_print_warning("Command at line %lu of file %s returned no output.\n",
                                  file_peek_line(), file_peek_path());
+            fclose(fp);
+            remove((char *) OutFile);
         }
     } else {
         libast_print_warning("Output file %s could not be created.  (line %lu of file %s)\n", NONULL(OutFile), file_peek_line(), file_peek_path());
+        close(fd);
+        remove((char *) OutFile);
     }
     FREE(Command);
 
